@@ -1256,4 +1256,31 @@ theorem linecell_refines {rb : RB} {a : AState} (wf : WF rb) (R : Refines rb a) 
       · rw [if_neg p, if_neg p, if_neg]
         intro x; exact p ⟨by omega, by omega⟩
 
+theorem lineLoop_refines (cellAt : Int → Int × Int) (bits : Nat) (n : Nat) :
+    ∀ {rb : RB} {a : AState} (_ : WF rb) (_ : Refines rb a) (from_ : Int),
+      WF (RB.lineLoop cellAt bits rb from_ n) ∧ Refines (RB.lineLoop cellAt bits rb from_ n) (RBAbs.lineLoop cellAt bits a from_ n) := by
+  induction n with
+  | zero => intro rb a wf R from_; exact ⟨wf, R⟩
+  | succ n ih =>
+    intro rb a wf R from_
+    unfold RB.lineLoop RBAbs.lineLoop
+    obtain ⟨w, r⟩ := linecell_refines wf R (cellAt from_).1 (cellAt from_).2 bits
+    exact ih w r (from_ + 1)
+
+theorem hlineAt_refines {rb : RB} {a : AState} (wf : WF rb) (R : Refines rb a) (l c1 c2 : Int) (st caps : Nat) :
+    WF (RB.hlineAt rb l c1 c2 st caps) ∧ Refines (RB.hlineAt rb l c1 c2 st caps) (RBAbs.hlineAt a l c1 c2 st caps) := by
+  unfold RB.hlineAt RBAbs.hlineAt
+  simp only
+  obtain ⟨w1, q1⟩ := linecell_refines wf R l c1 (st <<< Gen.RBWidth.c_EAST_SHIFT ||| if caps &&& Gen.RBWidth.c_TICKIT_LINECAP_START ≠ 0 then st <<< Gen.RBWidth.c_WEST_SHIFT else 0)
+  obtain ⟨w2, q2⟩ := lineLoop_refines (fun col => (l, col)) (st <<< Gen.RBWidth.c_EAST_SHIFT ||| st <<< Gen.RBWidth.c_WEST_SHIFT) (c2 - 1 - c1).toNat w1 q1 (c1 + 1)
+  exact linecell_refines w2 q2 l c2 _
+
+theorem vlineAt_refines {rb : RB} {a : AState} (wf : WF rb) (R : Refines rb a) (l1 l2 c : Int) (st caps : Nat) :
+    WF (RB.vlineAt rb l1 l2 c st caps) ∧ Refines (RB.vlineAt rb l1 l2 c st caps) (RBAbs.vlineAt a l1 l2 c st caps) := by
+  unfold RB.vlineAt RBAbs.vlineAt
+  simp only
+  obtain ⟨w1, q1⟩ := linecell_refines wf R l1 c (st <<< Gen.RBWidth.c_SOUTH_SHIFT ||| if caps &&& Gen.RBWidth.c_TICKIT_LINECAP_START ≠ 0 then st <<< Gen.RBWidth.c_NORTH_SHIFT else 0)
+  obtain ⟨w2, q2⟩ := lineLoop_refines (fun line => (line, c)) (st <<< Gen.RBWidth.c_SOUTH_SHIFT ||| st <<< Gen.RBWidth.c_NORTH_SHIFT) (l2 - 1 - l1).toNat w1 q1 (l1 + 1)
+  exact linecell_refines w2 q2 l2 c _
+
 end Tickit.RB
